@@ -8,6 +8,7 @@ CONSTANTS
   RestartResizes = TRUE
   IgnoreModes = {FALSE}
   AnonModes = {}
+  MaxFlight = 0
   Faults = TRUE
   AllowWindow = FALSE
   EmitEdges = FALSE
